@@ -2,6 +2,8 @@ import NA.Proofs.C03Plan
 import NA.Proofs.C03Spec
 import NA.Proofs.C03Members
 import NA.Proofs.C03Groups
+import NA.Proofs.C03Marks
+import NA.Model.PanOsOld
 /-!
 # C03 — PAN-OS approve converges to the Netspoc-equivalent rulebase
 (with the PAN-OS theorems of C07, C08, C10; names prefixed `pan_`)
@@ -226,6 +228,28 @@ theorem pan_objects_before_rules (diff : Differ) (a b : Vsys) :
   refine ⟨_, _, _, rfl, transferCmds_kind _, ?_, removeCmds_kind _⟩
   exact planState_out_kind diff a b
 
+/-- **Removals come last and spare what the target still names.**  Every removal is one of the
+last requests (`pan_objects_before_rules`), and no device address is removed that a rule of the
+target names in its source or destination as an address (not as a group) — whatever the device
+looks like, whatever the script.  (That the objects removed are unreferenced ON THE DEVICE at that
+moment follows from the convergence of all lists; that part is checked by the oracle: the strict
+device refuses the removal of a referenced object.) -/
+theorem pan_removals_last_unreferenced (diff : Differ) (a b : Vsys)
+    (ha : (a.addrs.map (·.name)).Nodup) (r : Rule) (x : String) (hr : r ∈ b.rules)
+    (hx : x ∈ r.src ∨ x ∈ r.dst) (hg : ∀ g ∈ b.groups, g.name ≠ x) (hb : ∃ o ∈ b.addrs, o.name = x) :
+    Cmd.delAddr x ∉ planVsys diff a b ∧
+      (∃ t m rm, planVsys diff a b = t ++ m ++ rm ∧ (∀ c ∈ rm, c.isRemoval = true) ∧
+        (∀ c ∈ t ++ m, c.isRemoval = false)) := by
+  refine ⟨planVsys_spares_address diff a b ha r x hr hx hg hb, ?_⟩
+  obtain ⟨t, m, rm, h, ht, hm, hrm⟩ := pan_objects_before_rules diff a b
+  refine ⟨t, m, rm, h, hrm, ?_⟩
+  intro c hc
+  rcases List.mem_append.mp hc with hc | hc
+  · have := ht c hc
+    cases c <;> simp_all [Cmd.isTransfer, Cmd.isRemoval]
+  · have := hm c hc
+    cases c <;> simp_all [Cmd.isRuleCmd, Cmd.isMember, Cmd.isRemoval, ordOf]
+
 /-! ## Scope (`pan_scope`, C07) -/
 
 /-- **Scope.**  `GetChanges` emits requests only for vsys names that the device has and the
@@ -373,6 +397,87 @@ theorem pan_mixed_list_not_idempotent_counterexample :
         [.delMem "r1" .src "IP_1", .addMem "r1" .src ["IP_1"]] := by
   decide
 
+/-! ## Repaired findings: the planner as it was, and as it is -/
+
+/-- Number of leading positions with `eq i i`. -/
+def leading (eq : Nat → Nat → Bool) : Nat → Nat → Nat
+  | 0, _ => 0
+  | fuel + 1, i => if eq i i then leading eq fuel (i + 1) + 1 else 0
+
+/-- Common prefix, then delete the rest of the device side, then insert the rest of the target
+side.  On the witnesses below this is the script `myers.Diff` returns (the witnesses were
+replayed on the real planner). -/
+def prefixDiff : Differ := fun n m eq =>
+  let k := leading eq (min n m) 0
+  (if k > 0 then [⟨0, k, 0, k⟩] else []) ++ (if k < n then [⟨k, n, k, k⟩] else []) ++
+    (if k < m then [⟨n, n, k, m⟩] else [])
+
+def mkRule (n : String) (src : List String) (srv : String) : Rule :=
+  { name := n, hdr := "h", src := src, dst := ["any"], srv := [srv] }
+def mkGrp (n : String) (ms : List String) : Grp := { name := n, members := ms }
+def mkObjs (l : List String) : List Obj := l.map (fun n => ⟨n, n⟩)
+def mkVsys (rules : List Rule) (addrs : List String) (groups : List Grp) (svcs : List String) : Vsys :=
+  { name := "v", rules := rules, addrs := mkObjs addrs, groups := groups, svcs := mkObjs svcs }
+
+def fDev := mkVsys [mkRule "r1" ["g1"] "s1", mkRule "r2" ["g3"] "s2"] ["a1", "a2", "a3", "a5"]
+  [mkGrp "g1" ["a1", "a2", "a5"], mkGrp "g3" ["a3"]] ["s1", "s2"]
+def fTgt := mkVsys [mkRule "r1" ["g3"] "s1", mkRule "r2" ["g3"] "s2"] ["a3", "a4"]
+  [mkGrp "g3" ["a3", "a4"]] ["s1", "s2"]
+
+/-- **F-C03f (repaired, cfbdae7).**  On the unchanged tree "every request is executable" was
+false for plain Netspoc shapes: rule `r1` changes from the large group `g1` to `g3`; the list is
+replaced and names `g3-1`, the name under which the target's `g3` is going to be transferred;
+then rule `r2` claims the device's `g3` for the same target group (one member to add), which
+cancels the transfer: `g3-1` never exists and the `edit` of `r1` is refused. -/
+theorem pan_group_transfer_cancelled_counterexample :
+    wellFormed [] fDev = true ∧ wellFormed [] fTgt = true ∧
+      planVsysOld prefixDiff fDev fTgt =
+        [.setAddr "a4" "a4", .editList "r1" .src ["g3-1"], .setGrp "g3" ["a4"], .delGrp "g1",
+         .delAddr "a1", .delAddr "a2", .delAddr "a5"] ∧
+      (execAll [] fDev (planVsysOld prefixDiff fDev fTgt)).2 = (1, some "dangling-reference") := by
+  decide
+
+/-- … and with the repair the same pair converges: all nine requests are accepted, the result
+is equivalent to the target, the next plan is empty. -/
+theorem pan_group_transfer_repaired :
+    (execAll [] fDev (planVsys prefixDiff fDev fTgt)).2 = (9, none) ∧
+      equiv (execAll [] fDev (planVsys prefixDiff fDev fTgt)).1 fTgt = true ∧
+      planVsys prefixDiff (execAll [] fDev (planVsys prefixDiff fDev fTgt)).1 fTgt = [] := by
+  decide
+
+def dDev := mkVsys [mkRule "r1" ["g1", "a5"] "s1", mkRule "r2" ["g2"] "s2"] ["a1", "a4", "a5"]
+  [mkGrp "g1" ["a1"], mkGrp "g2" ["a4"]] ["s1", "s2"]
+def dTgt := mkVsys [mkRule "r1" ["g1", "g2", "a5"] "s1"] ["a1", "a2", "a5"]
+  [mkGrp "g1" ["a1"], mkGrp "g2" ["a2"]] ["s1"]
+
+/-- **F-C03d (repaired, 7da130b).**  On the unchanged tree a group inserted incrementally into
+an existing list was sent under its Netspoc name `g2` although it is transferred as `g2-1`:
+the rule then names the device's other group `g2`, whose removal is refused. -/
+theorem pan_inserted_group_name_counterexample :
+    wellFormed [] dDev = true ∧ wellFormed [] dTgt = true ∧
+      planVsysOld prefixDiff dDev dTgt =
+        [.setAddr "a2" "a2", .setGrp "g2-1" ["a2"], .addMem "r1" .src ["g2"], .delRule "r2",
+         .delGrp "g2", .delAddr "a4", .delSvc "s2"] ∧
+      (execAll [] dDev (planVsysOld prefixDiff dDev dTgt)).2 = (4, some "delete-referenced-group") := by
+  decide
+
+theorem pan_inserted_group_name_repaired :
+    (execAll [] dDev (planVsys prefixDiff dDev dTgt)).2 = (7, none) ∧
+      equiv (execAll [] dDev (planVsys prefixDiff dDev dTgt)).1 dTgt = true := by
+  decide
+
+def cDev := mkVsys [mkRule "x" ["a1"] "s1"] ["a1"] [] ["s1"]
+def cTgt := mkVsys [{ mkRule "x" ["a1"] "s1" with hdr := "h2" }, mkRule "x-1" ["any"] "s1"] ["a1"] [] ["s1"]
+
+/-- **F-C03c (repaired, 86e0d84)** on a whole vsys: the target's changed rule `x` is renamed to
+`x-1`, the name of another target rule; the second `set` would merge into the first rule — the
+strict device refuses it. -/
+theorem pan_generated_rule_name_counterexample :
+    (execAll [] cDev (planVsysOld prefixDiff cDev cTgt)).2 = (2, some "set-existing-rule") ∧
+      (execAll [] cDev (planVsys prefixDiff cDev cTgt)).2 = (3, none) ∧
+      equiv (execAll [] cDev (planVsys prefixDiff cDev cTgt)).1 cTgt = true := by
+  decide
+
 /-! ## Non-vacuity: the hypotheses of the theorems are satisfiable on non-trivial values -/
 
 example : GoodDiffer trivialDiff := trivialDiff_good
@@ -385,15 +490,21 @@ example : runOrd ["r1", "r2"] (orderOps ["r1", "r2"] (uniqNames ["r1", "r2"] ["r
 /-- a plain list in a state without groups: hypotheses of `pan_members_converge` -/
 example : (∀ x ∈ ["a", "b"], (initSt sgDev sgTgt []).aGrpIdx x = none) ∧ ["a", "b"].Nodup := by decide
 example : (execAll [] sgDev (planVsys idDiff sgDev sgTgt)).2.1 = 2 := by decide
+/-- hypotheses of `pan_removals_last_unreferenced`: rule r1 of `mixTgt` names address IP_1 -/
+example : (mixDev.addrs.map (·.name)).Nodup ∧ (∀ g ∈ mixTgt.groups, g.name ≠ "IP_1") ∧
+    (∃ o ∈ mixTgt.addrs, o.name = "IP_1") := by decide
 example : (match planDevice idDiff "d" "d" [sgDev] [sgTgt] with
     | .ok l => l.map (·.1) == ["v"] | .error _ => false) = true := by decide
 
 def obligations : List Lean.Name := [
   ``pan_rules_converge, ``pan_rules_converge_on_device, ``pan_members_converge, ``pan_group_members_converge,
   ``pan_group_reuse_sound, ``pan_uniq_names, ``pan_uniq_names_counterexample,
-  ``pan_uniq_names_partial, ``pan_objects_before_rules, ``pan_scope, ``pan_frame, ``pan_prefix_wf,
+  ``pan_uniq_names_partial, ``pan_objects_before_rules, ``pan_removals_last_unreferenced, ``pan_scope, ``pan_frame, ``pan_prefix_wf,
   ``pan_resume_converges, ``pan_idempotent_rules, ``pan_idempotent_lists,
   ``pan_sgroup_set_merges_counterexample, ``pan_mixed_list_not_idempotent_counterexample,
+  ``pan_group_transfer_cancelled_counterexample, ``pan_group_transfer_repaired,
+  ``pan_inserted_group_name_counterexample, ``pan_inserted_group_name_repaired,
+  ``pan_generated_rule_name_counterexample,
   ``trivialDiff_good, ``suffixInj]
 
 end NA.PanOs
